@@ -66,6 +66,18 @@ def targeted_programs(dev):
                 {"op": "enter"}, some[4], some[1], some[6], {"op": "exit"}, {"op": "save", "fname": "snapshot.gwl"},
                 {"op": "save", "fname": "snapshot.gwl", "pre": "shorter"}]
     progs.append(h)
+    # parameterless records are equal strings (possibly the very same object): the last record equals earlier ones
+    h = _hdr("files/repeated-records", dev)
+    h["ops"] = [{"op": "enter"}, some[1], some[6], some[0], some[1], some[6], {"op": "save", "pre": "longer"}, {"op": "str"},
+                some[6], some[6], {"op": "save"}, some[1], some[1], some[1], {"op": "exit", "pre": "shorter"}]
+    progs.append(h)
+    # ".gwl" in a directory name is not an extension of the file name
+    h = _hdr("files/extension-of-the-name", dev)
+    h["ops"] = [{"op": "enter"}, some[1], some[6],
+                {"op": "save", "ext": "none", "fname": "assay.gwl.d/part1.txt"}, {"op": "save", "ext": "none", "fname": "archive.gwl/worklist"},
+                {"op": "save", "ext": "none", "fname": "x.gwl.bak/notes.md", "pathkind": "path"},
+                {"op": "save", "fname": "plain.dir/inside.gwl"}, {"op": "save", "fname": "a.gwl.d/b.gwl", "pathkind": "path"}, {"op": "exit"}]
+    progs.append(h)
     # a worklist without a path: leaving the block writes nothing
     h = _hdr("files/nopath", dev, file=False)
     h["ops"] = [{"op": "enter"}, some[1], {"op": "exit"}, {"op": "str"}, {"op": "save"}]
